@@ -114,6 +114,18 @@ def client(fake, **kw):
     return c
 
 
+# how a connection that fails in mid-transfer shows up in httpx: reset (ReadError), clean close by the peer before the message was
+# complete (RemoteProtocolError), write side (WriteError), timeouts. All are httpx.TransportError; the fault scripts rotate through them.
+DROP_KINDS = ('ReadError', 'RemoteProtocolError', 'WriteError', 'ReadTimeout')
+CUT_KINDS = ('ReadError', 'RemoteProtocolError', 'ReadTimeout')
+
+
+def transport_error(fake, kinds, what, request):
+    fake.drops = getattr(fake, 'drops', 0) + 1
+    cls = getattr(httpx, kinds[(fake.drops + getattr(fake, 'drop_phase', 0)) % len(kinds)])
+    return cls('%s (%s, fault script)' % (what, cls.__name__), request=request)
+
+
 async def apply_fault(fake, request, act):
     """act: ('status', code, after_chunks) | ('drop', after_chunks) | ('cut', after_bytes, full_bytes) | ('auth',)"""
     fake.calls += 1
@@ -130,7 +142,7 @@ async def apply_fault(fake, request, act):
                 if n >= want:
                     break
         if kind == 'drop':
-            raise httpx.ReadError('connection dropped by the fault script', request=request)
+            raise transport_error(fake, DROP_KINDS, 'connection dropped', request)
         headers = {'retry-after': '1'} if act[1] == 429 else {}
         return httpx.Response(act[1], headers=headers, json={'status': act[1], 'code': 'fault', 'message': 'fault script'})
     if kind == 'auth':
@@ -143,6 +155,6 @@ async def apply_fault(fake, request, act):
         async def body():
             if upto > 0:
                 yield full[:upto]
-            raise httpx.ReadError('response cut by the fault script', request=request)
+            raise transport_error(fake, CUT_KINDS, 'response cut', request)
         return httpx.Response(200, headers={'content-length': str(len(full))}, content=body())
     raise ValueError(act)
